@@ -51,6 +51,18 @@ class SelectedSet:
             self._set.discard(replace)
         self._set.add(selected)
 
+    def discard(self, selected: SelectedMailbox) -> None:
+        """Remove a selected mailbox object from the set, so that it will no
+        longer be returned by :meth:`.any_selected`. The weak set forgets an
+        object only once it has been freed, which can be long after its
+        connection has ended.
+
+        Args:
+            selected: The selected mailbox object to remove.
+
+        """
+        self._set.discard(selected)
+
     @property
     def any_selected(self) -> SelectedMailbox | None:
         """A single, random object in the set of selected mailbox objects.
@@ -359,6 +371,16 @@ class SelectedMailbox:
     def set_deleted(self) -> None:
         """Marks the selected mailbox as having been deleted."""
         self._is_deleted = True
+
+    def release(self) -> None:
+        """Removes the object from its selected set, because its connection
+        no longer has the mailbox selected. Copies made by :meth:`.fork`
+        afterwards are not added to the set either.
+
+        """
+        if self._selected_set is not None:
+            self._selected_set.discard(self)
+            self._selected_set = None
 
     def silence(self, seq_set: SequenceSet, flag_set: Set[Flag],
                 flag_op: FlagOp) -> None:
